@@ -726,6 +726,126 @@ fn c08_post(plan: &mut LPlan, seed: u64) {
 }
 
 pub fn all() -> Vec<Box<dyn Check>> {
+    let mut v = l_checks();
+    v.extend(k_checks());
+    v
+}
+
+fn k_checks() -> Vec<Box<dyn Check>> {
+    use crate::ksim::checks::{KCheck, gen_c06, gen_c16, gen_c17, gen_select};
+    vec![Box::new(KCheck {
+        id: "C06",
+        level: "exploration",
+        generate: gen_c06,
+        monitors: || vec![Box::new(crate::ksim::c06::C06)],
+        full_select_obs: false,
+        quick_runs: 20_000,
+        thorough_runs: 2_000_000,
+        rule: "one run = one seeded timed history (20..300+ events, 1..3 links, both modes, configuration changed mid-history) of earned SRTLA ACKs with the global +1, raw ACK-rule calls with in-flight arguments up to i32::MAX, NAKs isolated and in bursts (< 1 s apart), time-based recovery at spacings from 0 ms to minutes and RTT velocities from negative to > 2, housekeeping ticks, mark_for_recovery / reconnect / REG3 / REG_ERR, from boundary and random starting windows. After every event: range, direction by event kind, fast-recovery entry/exit thresholds, 20000 after a tear-down, no change on a classic tick; overflow checks are on. Non-trivial = at least one ACK, NAK, recovery or tear-down event was judged; distinct = distinct event-log hashes among non-trivial runs",
+        assumptions: &[
+            "starting windows are written directly but only inside [1000, 60000]",
+            "the in-flight argument of the two ACK rules is passed directly (the statement quantifies it up to i32::MAX)",
+            "the per-link housekeeping calls (recovery only when not classic) are mirrored from src/sender/housekeeping.rs; engine L (C10) checks that glue line on the real shell",
+        ],
+        probes: &["c06.nak", "c06.nak_at_floor", "c06.ack", "c06.ack_near_cap", "c06.ack_rule_extreme_in_flight", "c06.recovery_increased", "c06.teardown", "c06.fast_recovery_entered", "c06.fast_recovery_left", "c06.housekeeping_tick"],
+    }),
+    Box::new(KCheck {
+        id: "C03",
+        level: "exploration",
+        generate: gen_select,
+        monitors: || vec![Box::new(crate::ksim::sel::C03::default())],
+        full_select_obs: true,
+        quick_runs: 6_000,
+        thorough_runs: 600_000,
+        rule: SEL_RULE_C03,
+        assumptions: SEL_ASSUMPTIONS,
+        probes: &["c03.decisions", "c03.decisions_with_gates_engaged", "c03.every_link_under_some_gate", "c03.single_usable_link"],
+    }),
+    Box::new(KCheck {
+        id: "C11",
+        level: "exploration",
+        generate: gen_select,
+        monitors: || vec![Box::new(crate::ksim::sel::C11::default())],
+        full_select_obs: true,
+        quick_runs: 6_000,
+        thorough_runs: 600_000,
+        rule: SEL_RULE_C11,
+        assumptions: SEL_ASSUMPTIONS,
+        probes: &["c11.decisions", "c11.switched", "c11.held_by_hysteresis", "c11.last_link_skipped", "c11.quality_gate_2pct", "c11.soft_cap_active", "c11.cap_exceeded_somewhere", "c11.warming_link_scored"],
+    }),
+    Box::new(KCheck {
+        id: "C12",
+        level: "exploration",
+        generate: gen_select,
+        monitors: || vec![Box::new(crate::ksim::sel::C12)],
+        full_select_obs: true,
+        quick_runs: 2_000,
+        thorough_runs: 600_000,
+        rule: SEL_RULE_C12,
+        assumptions: SEL_ASSUMPTIONS,
+        probes: &["c12.decisions", "c12.guard_state_moved", "c12.guard_off_decision", "c12.guard_off_with_history"],
+    }),
+    Box::new(KCheck {
+        id: "C13",
+        level: "exploration",
+        generate: gen_select,
+        monitors: || vec![Box::new(crate::ksim::sel::C13::default())],
+        full_select_obs: true,
+        quick_runs: 6_000,
+        thorough_runs: 600_000,
+        rule: SEL_RULE_C13,
+        assumptions: SEL_ASSUMPTIONS,
+        probes: &["c13.latch_engaged", "c13.latch_released", "c13.lapse_resets_run", "c13.pull_engaged", "c13.pull_released", "c13.escalated_from_pull", "c13.ceiling_below_floor", "c13.rtt_bound_window", "c13.ceiling_bound_window", "c13.latched_with_drained_backlog", "c13.dwell_in_progress"],
+    }),
+    Box::new(KCheck {
+        id: "C16",
+        level: "exploration",
+        generate: gen_c16,
+        monitors: || vec![Box::new(crate::ksim::cc::C16::default())],
+        full_select_obs: false,
+        quick_runs: 20_000,
+        thorough_runs: 2_000_000,
+        rule: "one run = one seeded timed history (30..250 ticks, 1..3 links) for the real LinkCcController::tick_all over real connections whose RTT samples, cumulative byte and NAK counters and bitrate estimate follow a per-run regime (no loss, light loss, heavy loss, on/off loss, RTT inflation, RTT square wave) with zero / steady / 100x burst rates, ticks 1 ms to 10 s apart, links dropping out of and returning to the tick set, and counter resets after reconnect. After every tick, against the previous snapshot and the tick's inputs: bounds, floor until an RTT sample exists, a decrease only as x0.85 loss back-off (not below min(observed, previous), never raising) or one-shot x0.75 drain entry, after seeding growth <= 6 % and <= 2 x measured, loss latch set only after the reported loss average stayed > 0.55 at every tick for >= 4 s and cleared only at < 0.25. Non-trivial = at least one tick with an RTT sample was judged; distinct = distinct event-log hashes among non-trivial runs",
+        assumptions: &[
+            "cumulative byte and NAK counters and the bitrate estimate are written directly (measured quantities; monotone except across a reset)",
+            "the loss average judged by the latch rule is the one the controller reports in its snapshot; its value is only range-checked",
+            "a drain entry clamped by the 100 kbit/s floor is accepted (max(x0.75, floor))",
+        ],
+        probes: &["c16.link_ticks", "c16.bootstrap_tick", "c16.seeded", "c16.increase", "c16.backoff_decrease", "c16.backoff_floored_at_delivered_rate", "c16.drain_entry", "c16.outlier_burst_clamped", "c16.loss_average_high", "c16.loss_latch_set", "c16.loss_latch_cleared"],
+    }),
+    Box::new(KCheck {
+        id: "C17",
+        level: "exploration",
+        generate: gen_c17,
+        monitors: || vec![Box::new(crate::ksim::cc::C17::default())],
+        full_select_obs: false,
+        quick_runs: 20_000,
+        thorough_runs: 2_000_000,
+        rule: "one run = one seeded tick-by-tick history (30..220 ticks, 1..4 links) for the real WeakLinkFilter::classify with per-link bitrates that idle, starve and cross the 100 kbit/s bypass floor, RTTs with one-tick blips and sustained rises (queue-building via real RTT-tracker samples), links joining, leaving and being dropped from the tick set. A temporal monitor checks: never weak while disconnected or under the floor, a delay verdict only if the delay signal also held on the previous tick, share-weak runs never longer than 15 and followed by three forced not-weak ticks, entering low-share only below 1/4 of fair share, leaving only at >= 3/4 minus one permille. Non-trivial = at least one connected link was classified above the floor; distinct = distinct event-log hashes among non-trivial runs",
+        assumptions: &[
+            "the bitrate estimate is written directly (measured quantity); RTT state comes from real update_estimate calls",
+            "the delay tier is the one the classifier reports (tier arithmetic is covered by the repository's own tests); permille rounding is in the statement's favour",
+        ],
+        probes: &["c17.ticks", "c17.bypass_tick", "c17.delay_signal", "c17.delay_weak", "c17.enter_low_share", "c17.leave_low_share", "c17.probation_armed", "c17.probation_tick"],
+    })]
+}
+
+#[allow(dead_code)]
+const SEL_GEN: &str = "one run = one seeded timed history (30..260+ events, 1..4 links) over the real core: REG3 / REG_ERR / tear-downs, RTT baselines from none to 2 s, backlogs up to hundreds of packets, earned SRTLA ACKs, cumulative ACKs draining backlogs, NAKs, keepalive echoes, inbound bytes, weak / loss-degraded / CC-target stamps, measured bitrates, clock advances from 0 ms to a minute (boundary values around 250 ms, 1 s, 3 s, 5 s), configuration and guard toggles mid-history, and routing decisions with any previous index (none, valid, out of range); about one event in ten expands into a tempting latch trace (backlog, proof, silence, then single ACK / drained backlog / sustained proof with or without a lapse).";
+const SEL_RULE_C03: &str = const_format_c03();
+const fn const_format_c03() -> &'static str {
+    "selection histories (see generator text in DESIGN.md §5/§P-C03): at every routing decision an independent usable set (REG3 since last reset, connected, heard within the timeout by the monitor's own stamps) is computed from the events alone; usable set non-empty => the scheduler returns a valid index. Non-trivial = at least one decision with a non-empty usable set; distinct = distinct event-log hashes among non-trivial runs"
+}
+const SEL_RULE_C11: &str = "selection histories (same generator as C03): at every enhanced-mode decision the monitor recomputes eligibility, the in-flight cap, the 2% quality gate, the 80% warming weight and the soft-cap factor from the pre-state with its own formulas (the quality multiplier is read back and range-checked), then checks the decision relations with relative tolerance 1e-9: chosen link not skipped, capped link not chosen while an unconstrained one exists, a switch needs >= 1.10x, a hold means nobody reaches 1.10x, otherwise argmax; and that repeating the call on the resulting state returns the same index. Non-trivial = at least one enhanced decision returned a link; distinct = distinct event-log hashes among non-trivial runs";
+const SEL_RULE_C12: &str = "selection histories (same generator as C03): around every routing decision the liveness/accounting projection of every link (connected, stamps, window, outstanding log, in-flight, loss counters, phase, reconnect state, RTT tracker, queue depth, bitrate tracker) is compared before/after; with the guard off every stall flag, pull and latch must be cleared and the decision must equal the decision on a clone whose stall history was erased. Non-trivial = at least one decision moved guard-private state or ran with the guard off; distinct = distinct event-log hashes among non-trivial runs";
+const SEL_RULE_C13: &str = "selection histories (same generator as C03, 2..3 links every fourth run): an independent temporal monitor with its own proof / heard clocks judges every edge: latch rises only with (backlog >= threshold or pull held) and proof older than clamp(4 x srtt, 1000, ceiling) (ceiling wins below the floor, no RTT => ceiling), never on a never-proved link; it falls, absent reset or guard-off, only after every decision since the run start saw fresh proof for >= 2 x window; pull rises only on loaded total silence and falls only when heard again or disconnected; counters move exactly on rising edges. Non-trivial = at least one latch or pull edge was judged; distinct = distinct event-log hashes among non-trivial runs";
+const SEL_ASSUMPTIONS: &[&str] = &[
+    "state is built through the real event API; direct writes are limited to the glue inputs (weak, loss_degraded, cc_target_bps), starting windows inside [1000, 60000], and measured quantities (bitrate estimate, cumulative byte / NAK counters)",
+    "the REG3 / REG_ERR branches and the liveness / proof stamping lines of src/sender/uplink_recv.rs are mirrored by the driver",
+    "the stall-gated flag of a decision is read back right after it",
+];
+
+fn l_checks() -> Vec<Box<dyn Check>> {
     vec![Box::new(LCheck {
         id: "C01",
         level: "fault_enumeration",
